@@ -1387,6 +1387,17 @@ func (x *Exec) branch(st *State, fr *Frame, b *ssa.BasicBlock, c *Term, stop *ss
 	}
 	pcT := And(append(append([]*Term(nil), st.Cond...), c)...)
 	pcF := And(append(append([]*Term(nil), st.Cond...), Not(c))...)
+	// a composite condition (e.g. the value of `a && b` in a switch case) hides contradictions from the syntactic
+	// test: ask a solver whether an arm is feasible at all, so that an impossible "no case matched" path is not
+	// carried along (it would make every later length and index symbolic)
+	if compositeCond(c) && len(st.Cond) > 0 {
+		if !pcT.IsFalse() && x.implied(st, Not(c)) {
+			pcT = False()
+		}
+		if !pcF.IsFalse() && x.implied(st, c) {
+			pcF = False()
+		}
+	}
 	if !pcT.IsFalse() {
 		s1 := st.clone()
 		s1.Cond = append(s1.Cond, c)
@@ -1426,6 +1437,18 @@ func (x *Exec) branch(st *State, fr *Frame, b *ssa.BasicBlock, c *Term, stop *ss
 		other = append(other, x.runRegionP(r.St, r.Fr, inner, r.Prev, stop, r.PhiBound)...)
 	}
 	return other
+}
+
+// compositeCond: the condition is not a single comparison (or its negation)
+func compositeCond(c *Term) bool {
+	if c.Op == "not" {
+		c = c.Args[0]
+	}
+	switch c.Op {
+	case "and", "or", "ite", "not":
+		return true
+	}
+	return false
 }
 
 // joinAt merges outcomes that reached block j: phi inputs are selected per outcome, then merged.
